@@ -21,6 +21,12 @@ func IfsOf(fn *ssa.Function) []*ssa.If {
 func CondCall(cond ssa.Value, names ...string) (*ssa.Call, bool) {
 	c, ok := cond.(*ssa.Call)
 	if !ok {
+		// the boolean among several results (`v, ok := f(x)`; `if ok`)
+		if ex, isEx := cond.(*ssa.Extract); isEx && isBoolT(ex.Type()) {
+			c, ok = ex.Tuple.(*ssa.Call)
+		}
+	}
+	if !ok {
 		return nil, false
 	}
 	n := CalleeName(c)
